@@ -155,6 +155,8 @@ fn main() {
             None => unlisted.push(v),
         }
     }
+    // simplest counterexample first: shortest replay description
+    unlisted.sort_by_key(|v| v.replay.to_string().len());
     // replay artefacts
     let mut replay_paths: Vec<String> = Vec::new();
     if !unlisted.is_empty() {
